@@ -304,21 +304,33 @@ func c12RangeAgreement(r *core.Run, p *core.Prog) {
 	info := f.Info()
 	fF := p.FieldObj(pkgGoDB, "DBWorkManager", "tFirstCovered")
 	fL := p.FieldObj(pkgGoDB, "DBWorkManager", "tLastCovered")
-	var cond ast.Expr
-	core.Walk(f.Decl.Body, false, func(x ast.Node) bool {
-		if ifs, ok := x.(*ast.IfStmt); ok && cond == nil && mentionsFieldR(info, f.Decl.Body, ifs.Cond, fF) && mentionsFieldR(info, f.Decl.Body, ifs.Cond, fL) {
-			if len(ifs.Body.List) == 1 {
-				if b, ok := ifs.Body.List[0].(*ast.BranchStmt); ok && b.Tok == token.CONTINUE {
-					cond = ifs.Cond
-				}
+	// The filter is read off the control-flow graph: for each order type of (block time, first, last) the branch
+	// conditions that compare the block time with the covered range are evaluated and only the edge they select is
+	// followed; the block is "skipped" iff the first column read of the loop is then unreachable. This is the same for one
+	// combined test, two consecutive guards, an inverted test around the processing, or a hoisted / helper predicate.
+	g := core.GraphOf(f)
+	var readNodes []int
+	for id, n := range g.Nodes {
+		if n == nil {
+			continue
+		}
+		for _, c := range core.Calls(n, false) {
+			if strings.HasSuffix(core.CallName(info, c), "GPDir.ReadBlockAtIndex") {
+				readNodes = append(readNodes, id)
 			}
 		}
-		return true
-	})
-	if cond == nil {
-		r.Undecided(rule, "query-filter", p.Rel(f.Decl.Pos()), "no `if <block time vs covered range> { continue }` found")
+	}
+	var condNodes []int
+	for id, n := range g.Nodes {
+		if e, ok := n.(ast.Expr); ok && len(g.Succ[id]) == 2 && (mentionsFieldR(info, f.Decl.Body, e, fF) || mentionsFieldR(info, f.Decl.Body, e, fL)) {
+			condNodes = append(condNodes, id)
+		}
+	}
+	if len(readNodes) == 0 || len(condNodes) == 0 {
+		r.Undecided(rule, "query-filter", p.Rel(f.Decl.Pos()), fmt.Sprintf("no `if <block time vs covered range> { continue }` found (%d range tests, %d column reads)", len(condNodes), len(readNodes)))
 		return
 	}
+	cond := g.Nodes[condNodes[0]].(ast.Expr)
 	for _, rf := range []int{-1, 0, 1} {
 		for _, rl := range []int{-1, 0, 1} {
 			if rf < 0 && rl > 0 {
@@ -366,7 +378,38 @@ func c12RangeAgreement(r *core.Run, p *core.Prog) {
 				}
 				return false, false
 			}
-			skip, decided := eval(cond, 0)
+			decided := true
+			seenN := map[int]bool{core.Entry: true}
+			work := []int{core.Entry}
+			for len(work) > 0 {
+				cur := work[len(work)-1]
+				work = work[:len(work)-1]
+				succs := g.Succ[cur]
+				for _, cn := range condNodes {
+					if cn == cur {
+						v, ok := eval(g.Nodes[cur].(ast.Expr), 0)
+						if !ok {
+							decided = false
+						} else if v {
+							succs = succs[:1]
+						} else {
+							succs = succs[1:]
+						}
+					}
+				}
+				for _, nx := range succs {
+					if !seenN[nx] {
+						seenN[nx] = true
+						work = append(work, nx)
+					}
+				}
+			}
+			skip := true
+			for _, rn := range readNodes {
+				if seenN[rn] {
+					skip = false
+				}
+			}
 			want := rf < 0 || rl > 0
 			r.Check(rule, fmt.Sprintf("query-filter:block-%s-first-%s-last", relName[rf], relName[rl]), p.Rel(cond.Pos()), decided && skip == want,
 				fmt.Sprintf("a block %s the first and %s the last covered time is skipped=%v by the query; the listing subtracts it iff it is before first or after last (%v)", relName[rf], relName[rl], skip, want))
